@@ -2366,7 +2366,12 @@ unsigned int XMLScanner::resolvePrefix(  const XMLCh* const        prefix
     else
     {
         if (XMLString::equals(prefix, XMLUni::fgXMLNSString))
+        {
+            // Namespaces in XML, 3: element names must not have the prefix xmlns
+            if (mode == ElemStack::Mode_Element)
+                emitError(XMLErrs::NoXMLNSAsElementPrefix, prefix);
             return fXMLNSNamespaceId;
+        }
         else if (XMLString::equals(prefix, XMLUni::fgXMLString))
             return fXMLNamespaceId;
     }
